@@ -34,7 +34,8 @@ LEVEL_TEXT = ("Emitters are enumerated by introspection of the package; each is 
               ' Also envelope classes instantiated directly (relying on declared defaults) through every wire form.'
               ' Also whatever the server handler answers to id-less messages.'
               ' Also two requests built from one params dict with their own progress tokens, and error objects that are not error objects given to every constructor (refused or emitted valid).'
-              ' Also every notification sender called for all its argument variants in a row on one write stream, the messages taken off only afterwards (an emitted message must not change after it was handed over), and a null _meta with a progress token.')
+              ' Also every notification sender called for all its argument variants in a row on one write stream, the messages taken off only afterwards (an emitted message must not change after it was handed over), and a null _meta with a progress token.'
+              ' Also wide, shallow payloads with hundreds of empty containers and a 100-level payload.')
 LEVEL_NOTE = ("Trusted: vf/ref.py validator; emitters that could not be driven are listed in evidence. id:null is tolerated "
               "only on the batch-rejection error (request id undeterminable).")
 RULE = ("case = (emitter, payload, id). Non-trivial: payload or id is not the trivial default; distinct = hash(emitter, "
